@@ -423,9 +423,9 @@ def run(ctx):
                             for y in [P.fns[x[1]]] + P.closures_of(P.fns[x[1]]):
                                 for e_ in y.exits():
                                     ch2 = [c_[3] for c_ in calls_in(expand(y, e_['expr']))]
-                                    if any(re.search(r'Iterator::(rev|skip|take|filter|step_by|last|nth|max|min)$', c_) for c_ in ch2):
+                                    if any(re.search(r'Iterator::(rev|skip|take|filter|step_by|last|nth|max|min|map_while|scan|take_while|skip_while|fuse|cycle)$', c_) for c_ in ch2):
                                         inner_ok = False
-                    ok = inner_ok and not any(re.search(r'Iterator::(rev|skip|take|filter|step_by|last|nth|max|min)$|::sort|::dedup', c_) for c_ in chain) and any(c_.endswith('Iterator::flat_map') for c_ in chain)
+                    ok = inner_ok and not any(re.search(r'Iterator::(rev|skip|take|filter|step_by|last|nth|max|min|map_while|scan|take_while|skip_while|fuse|cycle)$|::sort|::dedup', c_) for c_ in chain) and any(c_.endswith('Iterator::flat_map') for c_ in chain)
         ctx.ob(['C14'], 'R-ITER', 'C14-D5|%ss-complete-in-order' % nm, ok, 'all %ss of all rust backend blocks are joined in source order, none dropped: %s' % (nm, det), where)
     module_new(ctx)
     # ---- G13 extern value without address (C15-D2)
